@@ -92,8 +92,12 @@ func main() {
 		}
 		var seqs []string
 		okEcho := 0
-		for i := 0; i < 120; i++ {
+		for i := 0; i < 144; i++ {
 			l := []int{0, 1, 3, 4, 16, 17, 100, 1000}[i%8] + r.Intn(3)
+			if i >= 120 {
+				// the top of the range the property names, and the sizes around header-included / header-excluded limits
+				l = []int{8970, 8969, 8968, 8967, 8955, 8954, 8953, 8950, 8192, 8191, 8176, 8175, 4096, 4081, 4080, 4079, 2048, 2033, 2032}[(i-120)%19] - r.Intn(2)*((i-120)/19)
+			}
 			// an unknown rtnetlink message type is rejected with the request quoted back
 			ty := uint16(16 + 4*(200+r.Intn(50)) + 2)
 			flags := uint16(syscall.NLM_F_REQUEST)
@@ -108,6 +112,7 @@ func main() {
 			sq, err := rc.Send(syscall.NetlinkMessage{Header: syscall.NlMsghdr{Type: ty, Flags: flags, Pid: pidIn}, Data: p})
 			seqs = append(seqs, fmt.Sprint(sq))
 			if err != nil {
+				out.Case(fmt.Sprintf("NSendFail %d", l), map[string]interface{}{"route_send_payload_len": l, "send_error": err.Error()}, "send-refused", true)
 				continue
 			}
 			msgs, err := rc.Receive(false, syscall.ParseNetlinkMessage)
@@ -147,6 +152,7 @@ func main() {
 				p := rnd(r, l)
 				sq, err := bc.Send(syscall.NetlinkMessage{Header: syscall.NlMsghdr{Type: ty, Flags: syscall.NLM_F_REQUEST}, Data: p})
 				if err != nil {
+					out.Case(fmt.Sprintf("NSendFail %d", l), map[string]interface{}{"route_send_payload_len": l, "send_error": err.Error(), "read_buffer": B}, "send-refused", true)
 					continue
 				}
 				msgs, err := bc.Receive(false, syscall.ParseNetlinkMessage)
